@@ -37,6 +37,11 @@ func c01Value(c *Ctx, code string, base int) string {
 			return strconv.FormatInt(int64(r.Intn(2000)-1000), base)
 		}
 		return strconv.Itoa(r.Intn(2000) - 1000)
+	case "i8":
+		// a sized integer: values up to its limits, and (a fifth of the time) beyond them
+		return []string{"0", "7", "127", "-128", "-1", "100", "-100", "42", "128", "300", "-129", "1000"}[r.Intn(12)]
+	case "u16":
+		return []string{"0", "7", "65535", "65534", "1", "40000", "256", "42", "65536", "70000", "100000", "4294967296"}[r.Intn(12)]
 	case "Fstr!":
 		return []string{"v", "two words", "é", "a=b", "x:y", "q\"uote", " lead"}[r.Intn(7)]
 	case "Mstr,str":
@@ -53,6 +58,12 @@ func denoteExpected(code string, occ []string, base int) interface{} {
 	case "int":
 		v, _ := strconv.ParseInt(occ[len(occ)-1], base, 64)
 		return int(v)
+	case "i8":
+		v, _ := strconv.ParseInt(occ[len(occ)-1], base, 8)
+		return int8(v)
+	case "u16":
+		v, _ := strconv.ParseUint(occ[len(occ)-1], base, 16)
+		return uint16(v)
 	case "bool":
 		return true
 	case "Lstr":
@@ -88,7 +99,7 @@ func denoteRun(c *Ctx, n int, scope bool) {
 	p.SubOpt = 1
 	p.MaxCmdDepth = 2
 	p.Utf = 0.3
-	p.OnlyTypes = []string{"str", "str", "int", "bool", "bool", "Lstr", "Lint", "Mstr,str", "Fint", "Fstr!"}
+	p.OnlyTypes = []string{"str", "str", "int", "bool", "bool", "Lstr", "Lint", "Mstr,str", "Fint", "Fstr!", "i8", "u16"}
 	p.OptsMask = flags.PassDoubleDash | flags.PrintErrors
 	prop := "C01"
 	if scope {
@@ -103,6 +114,7 @@ func denoteRun(c *Ctx, n int, scope bool) {
 		cs.Env = nil
 		nilCmd := ""
 		expectUnknown := ""
+		outOfRange := "" // a sized integer option was given a number its type cannot hold: the line ends there, the parse must fail
 		// callbacks with a default: it is delivered once when the option does not occur, never when it does
 		cbDefault := map[string]string{}
 		var addDefaults func(sd *StructDesc)
@@ -265,6 +277,22 @@ func denoteRun(c *Ctx, n int, scope bool) {
 					argv = append(argv, cd.spelling+"="+v)
 				}
 				d.occ = append(d.occ, v)
+				switch code {
+				case "i8":
+					if _, err := strconv.ParseInt(v, 10, 8); err != nil {
+						outOfRange = cd.o.String() + " given " + v
+					}
+				case "u16":
+					if _, err := strconv.ParseUint(v, 10, 16); err != nil {
+						outOfRange = cd.o.String() + " given " + v
+					}
+				}
+				if outOfRange != "" {
+					break
+				}
+			}
+			if outOfRange != "" {
+				break
 			}
 			subs := chain[len(chain)-1].Commands()
 			if len(subs) == 0 || r.Intn(3) == 0 {
@@ -328,6 +356,9 @@ func denoteRun(c *Ctx, n int, scope bool) {
 				_ = a
 			}
 		}
+		if outOfRange != "" {
+			expectUnknown = "" // (the line fails at the number, in front of anything appended behind it)
+		}
 		if skip || (len(den) == 0 && expectUnknown == "") {
 			continue
 		}
@@ -353,6 +384,17 @@ func denoteRun(c *Ctx, n int, scope bool) {
 				}
 				c.Check("option-of-a-command-outside-the-path-is-unknown", ok, "C08:out-of-scope-accepted", in,
 					fmt.Sprintf("%s type %d %q", obs.errKind, obs.errType, obs.errMsg), "ErrUnknownFlag: "+want)
+				return
+			}
+			if outOfRange != "" && obs.panic == "" {
+				c.Class("c01/denote: a number beyond the limits of a sized integer type")
+				ok := obs.errKind == "flags" && obs.errType == int(flags.ErrMarshal)
+				in := map[string]interface{}{"case": cs.Description, "argv": argv, "out_of_range": outOfRange}
+				if !ok {
+					in["case_file"] = c.saveCase(cr)
+				}
+				c.Check("a-number-the-type-cannot-hold-is-rejected-not-stored-modulo", ok, "C01:denotation", in,
+					fmt.Sprintf("%s type %d %q", obs.errKind, obs.errType, obs.errMsg), "ErrMarshal")
 				return
 			}
 			if obs.panic != "" || obs.errKind != "ok" {
